@@ -2,13 +2,6 @@
 /// percent-decode + strict UTF-8 (the `percent-encoding` crate + `str::from_utf8`); None = refused
 pub uninterp spec fn dec(s: Seq<char>) -> Option<Seq<char>>;
 
-/// pieces between raw occurrences of `c`
-pub open spec fn split_spec(s: Seq<char>, c: char) -> Seq<Seq<char>> decreases s.len()
-{
-    if first_index_of(s, c) < 0 || first_index_of(s, c) >= s.len() { seq![s] }
-    else { seq![s.subrange(0, first_index_of(s, c))] + split_spec(s.subrange(first_index_of(s, c) + 1, s.len() as int), c) }
-}
-
 pub open spec fn is_dot(p: Seq<char>) -> bool { p == seq!['.'] }
 pub open spec fn is_dotdot(p: Seq<char>) -> bool { p == seq!['.', '.'] }
 pub open spec fn sub_skipped(p: Seq<char>) -> bool { p.len() == 0 || is_dot(p) || is_dotdot(p) }
@@ -60,12 +53,6 @@ pub proof fn lemma_ns_fold_none(ps: Seq<Seq<char>>, k: int)
         lemma_ns_fold_none(ps, k + 1);
     } else { assert(ps.take(k) == ps); }
 }
-
-/// `s.split(c)` for a char pattern, collected (the loop below iterates over the collected pieces)
-#[verifier::external_body]
-pub fn x_split<'a>(s: &'a str, c: char) -> (r: Vec<&'a str>)
-    ensures r@.len() == split_spec(s@, c).len(), forall|i: int| 0 <= i < r@.len() ==> (#[trigger] r@[i])@ == split_spec(s@, c)[i]
-{ s.split(c).collect() }
 
 /// `[a, b, c].contains(&s)` on string slices
 #[verifier::external_body]
